@@ -339,6 +339,116 @@ def run_vcf(inst):
     return Result(n=max(1, n), nontrivial=nt, violations=viols[:4], indeterminate=indet, outcome=("vcf", len(viols) > 0))
 
 
+# ------------------------------------------------------------------------------ GT/GL/GQ rule on exact distributions
+RULE_THRESHOLDS = (0, 3, 10, 13, 20, 30)
+
+
+def rule_triples(tier):
+    """every distribution over the three genotypes on a grid of step 1/20 (1/40), plus a few non-grid ones;
+    includes exact two- and three-way ties, zero entries and maxima equal to the threshold probability"""
+    N = 40 if tier == "thorough" else 20
+    out = [(a / N, b / N, (N - a - b) / N) for a in range(N + 1) for b in range(N + 1 - a)]
+    out += [(1 / 3, 1 / 3, 1 / 3), (0.376, 0.248, 0.376), (0.248, 0.376, 0.376), (0.376, 0.376, 0.248), (0.5 - 1e-12, 0.5 - 1e-12, 2e-12)]
+    out += [(1.0 - 10 ** (-t / 10.0), 10 ** (-t / 10.0) / 2, 10 ** (-t / 10.0) / 2) for t in RULE_THRESHOLDS if t]
+    out += [(10 ** (-t / 10.0) / 4, 1.0 - 10 ** (-t / 10.0), 3 * 10 ** (-t / 10.0) / 4) for t in RULE_THRESHOLDS if t]
+    return out
+
+
+def rule_space(tier):
+    T = rule_triples(tier)
+    chunk = 120
+    for thr in RULE_THRESHOLDS:
+        for i in range(0, len(T), chunk):
+            yield ("rule", thr, T[i : i + chunk])
+
+
+def run_rule(inst):
+    """the real determine_genotype and GenotypeVcfWriter.write_genotypes on given distributions"""
+    global _scratch
+    from whatshap.cli.genotype import determine_genotype
+    from whatshap.core import PhredGenotypeLikelihoods
+    from whatshap.vcf import GenotypeVcfWriter, VcfReader
+
+    if _scratch is None:
+        _scratch = synth.Scratch("c08")
+    _, thr, triples = inst
+    d = _scratch.sub("r")
+    thr_prob = 1.0 - (10 ** (-thr / 10.0))
+    seq = synth.make_reference(17, 60 + 10 * len(triples) + 60)
+    vcf = synth.VcfText(["S1"], contigs=[("chrA", len(seq))])
+    for i in range(len(triples)):
+        p = 50 + 10 * i
+        vcf.add("chrA", p, seq[p], [synth.other_base(seq[p])], ["0/1"])
+    vin = vcf.write(os.path.join(d, "in.vcf"))
+    out = os.path.join(d, "out.vcf")
+    viols = []
+    nt = 0
+    try:
+        with VcfReader(vin, only_snvs=False, genotype_likelihoods=False) as vr:
+            table = list(vr)[0]
+        assert len(table.variants) == len(triples)
+        gls = [PhredGenotypeLikelihoods(list(t)) for t in triples]
+        genos = [determine_genotype(g, thr_prob) for g in gls]
+        table.set_genotype_likelihoods_of("S1", gls)
+        table.set_genotypes_of("S1", genos)
+        with open(out, "w") as f:
+            w = GenotypeVcfWriter(command_line=None, in_path=vin, out_file=f)
+            w.write_genotypes("chrA", table, False)
+            if hasattr(w, "close"):
+                w.close()
+        parsed = synth.parse_vcf(out)
+        if len(parsed["records"]) != len(triples):
+            return Result(violations=[_vr("records", f"{len(triples)} records in, {len(parsed['records'])} out", inst, None)])
+        for t, rec in zip(triples, parsed["records"]):
+            call = rec["calls"][0]
+            top = max(t)
+            unique = sum(1 for x in t if x == top) == 1
+            want = [[0, 0], [0, 1], [1, 1]][t.index(top)] if unique and top > thr_prob else None
+            gt, _ = synth.gt_parse(call.get("GT"))
+            if gt is not None and None in gt:
+                gt = None
+            if (gt is None) != (want is None) or (gt is not None and sorted(gt) != want):
+                why = "unique maximum above the threshold" if want else ("no unique maximum" if not unique else f"maximum {top} does not exceed the threshold probability {thr_prob}")
+                viols.append(_vr("gt", f"distribution {t}, threshold {thr}: GT {call.get('GT')}, expected {want} ({why})", inst, t))
+                continue
+            gl = call.get("GL")
+            try:
+                g = [float(x) for x in gl.split(",")]
+            except Exception:  # noqa
+                viols.append(_vr("gl", f"distribution {t}: GL {gl!r}", inst, t))
+                continue
+            for x, y in zip(t, g):
+                e = math.log10(x) if x > 0 else None
+                if len(g) != 3 or (e is None and y > -300) or (e is not None and abs(y - max(e, -1000)) > 1e-4 * max(1.0, abs(e))):
+                    viols.append(_vr("gl", f"distribution {t}: GL {gl}, expected log10 of the distribution", inst, t))
+                    break
+            if want is not None:
+                nt += 1
+                other = sum(x for x in t if x != top)
+                gq = call.get("GQ")
+                if gq in (None, "."):
+                    viols.append(_vr("gq", f"distribution {t}: genotype called but GQ missing", inst, t))
+                elif other > 0:
+                    exact = -10 * math.log10(other)
+                    if abs(int(gq) - min(exact, 10000)) > 0.5 + 1e-6:
+                        viols.append(_vr("gq", f"distribution {t}: GQ {gq}, phred-scaled mass of the other genotypes {exact:.4f}", inst, t))
+            elif call.get("GQ") not in (None, "."):
+                viols.append(_vr("gq", f"distribution {t}: no genotype called but GQ {call.get('GQ')}", inst, t))
+    except Exception as e:  # noqa
+        import traceback
+
+        tb = traceback.extract_tb(e.__traceback__)[-1]
+        viols.append(_vr("error", f"{type(e).__name__}: {e} at {os.path.basename(tb.filename)}:{tb.lineno}", inst, None))
+    finally:
+        for f in os.listdir(d):
+            os.unlink(os.path.join(d, f))
+    return Result(n=len(triples), nontrivial=nt, violations=viols[:4], outcome=("rule", thr, len(viols) > 0))
+
+
+def _vr(clause, detail, inst, t):
+    return {"clause": clause, "signature": "c08:rule-" + clause, "detail": detail, "instance": {"rule": [inst[1], [list(t)] if t else [list(x) for x in inst[2]]]}}
+
+
 def _vw(clause, detail, inst):
     return {"clause": clause, "signature": "c08:vcf-" + clause, "detail": detail, "instance": {"world": inst[0], "opts": inst[1], "trios": inst[2]}}
 
@@ -365,16 +475,23 @@ def run(rep, tier, seed, only=None):
         st2 = par.explore(lambda: vcf_worlds(tier), run_vcf, label="C08/vcf")
         rep.add_violations(st2.violations)
         rep.add_crashes(st2.crashes, "vcf")
+    st3 = par.ShardStats()
+    if not only or "rule" in only:
+        st3 = par.explore(lambda: rule_space(tier), run_rule, label="C08/rule")
+        rep.add_violations(st3.violations)
+        rep.add_crashes(st3.crashes, "rule")
     rep.coverage.update(
-        evaluations=st.evaluations + st2.evaluations,
-        distinct_nontrivial=st.nontrivial + st2.nontrivial,
+        evaluations=st.evaluations + st2.evaluations + st3.evaluations,
+        distinct_nontrivial=st.nontrivial + st2.nontrivial + st3.nontrivial,
         rule="core: every instance of the layered space (read matrices with >= 2 entries per read x base qualities x prior triples x "
         "recombination costs, single / trio / quartet, long tables); non-trivial = posterior differs from the prior by > 1e-3 somewhere. "
-        "vcf: every genotyped call of every world; non-trivial = call with a unique maximum above the threshold",
+        "vcf: every genotyped call of every world; non-trivial = call with a unique maximum above the threshold. "
+        "rule: determine_genotype + GenotypeVcfWriter on every distribution of a 1/20 (1/40) grid (ties, zeros, maxima equal to the threshold) x thresholds",
         samples=[{"block": s} for s in st.samples[:4]] + [{"vcf_world_opts": s[1]} for s in st2.samples[:2]],
         exhaustive=True,
         core_instances=st.evaluations,
         vcf_calls=st2.evaluations,
+        rule_distributions=st3.evaluations,
         indeterminate=st2.indeterminate,
         layers=[l.name for l in L] + ["G5"],
         distinct_outcomes=len(st.outcomes) + len(st2.outcomes),
@@ -391,4 +508,6 @@ def replay(v):
     i = v["instance"]
     if "inst" in i:
         return judge(i["inst"])[0]
+    if "rule" in i:
+        return run_rule(("rule", i["rule"][0], [tuple(t) for t in i["rule"][1]])).violations
     return run_vcf((i["world"], i["opts"], [tuple(t) for t in i["trios"]] if i["trios"] else None)).violations
